@@ -779,8 +779,34 @@ impl<'a> Gen<'a> {
         }
         if roll < self.p.p_random + 6 {
             let c = self.expr(depth - 1, allow_vars);
-            let a = self.expr(depth - 1, allow_vars);
-            let b = self.expr(depth - 1, allow_vars);
+            let mut a = self.expr(depth - 1, allow_vars);
+            let mut b = self.expr(depth - 1, allow_vars);
+            if self.r.chance(1, 3) {
+                // both branches plain operands, one of them a bare name — an output the device may leave at Z or X, or
+                // a variable: only the selected branch may be looked at
+                let vars = if allow_vars { self.in_scope() } else { vec![] };
+                let name = if !self.readable.is_empty() && (vars.is_empty() || self.r.chance(2, 3)) {
+                    let n = self.r.pick(&self.readable).clone();
+                    if !self.reads.contains(&n) {
+                        self.reads.push(n.clone());
+                    }
+                    Some(n)
+                } else if !vars.is_empty() {
+                    Some(self.r.pick(&vars).clone())
+                } else {
+                    None
+                };
+                if let Some(n) = name {
+                    let lit = GExpr::Num(self.r.below(9) as i64);
+                    if self.r.chance(1, 2) {
+                        a = GExpr::Var(n);
+                        b = lit;
+                    } else {
+                        a = lit;
+                        b = GExpr::Var(n);
+                    }
+                }
+            }
             return GExpr::Call("ite".into(), vec![c, a, b]);
         }
         if roll < self.p.p_random + 6 + 15 {
